@@ -652,6 +652,10 @@ func (l *Lexer) skipComment(noPanic bool) bool {
 
 func (l *Lexer) skipCommentUntil(end string, mustEnd bool, noPanic bool) bool {
 	pos := token.Pos(l.pos)
+	if mustEnd {
+		// Skip the opening "/*" so that its "*" is not taken as a part of the closing "*/" (e.g. "/*/").
+		l.skipN(2)
+	}
 	for !l.eof() {
 		if l.slice(0, len(end)) == end {
 			l.skipN(len(end))
